@@ -166,3 +166,24 @@ Fixpoint po_apply_all (po : part_offsets) (ps : list resp_part) {struct ps} : op
 
 Definition po_start (u : lo_user_request) (k : str * Z) : part_offsets :=
   match tpmap_get (lo_prepare u) k with Some po => po | None => po_zero end.
+
+(* ---- ReadPartitions: which topics are asked for ---- *)
+(* the topics the caller names: a call without argument, a nil slice and an empty
+   non-nil slice all name none *)
+Definition arg_topics (arg : option (list str)) : list str :=
+  match arg with None => [] | Some l => l end.
+
+(* the topics the call is about: the caller's, else the connection's, else all (None) *)
+Definition topics_asked (conn_topic : str) (arg : option (list str)) : option (list str) :=
+  match arg_topics arg, conn_topic with
+  | [], [] => None
+  | [], _ => Some [conn_topic]
+  | l, _ => Some l
+  end.
+
+(* the cluster's metadata for the topics asked *)
+Definition topics_of_cluster (cluster : md_response) (asked : option (list str)) : list md_topic :=
+  match asked with
+  | None => md_topics cluster
+  | Some names => map (cluster_topic (md_topics cluster)) (str_nodup [] names)
+  end.
